@@ -18,6 +18,7 @@ def stack? : String → Option (List (Bytes × Nat))
   | "elanet" => some (tableOf (ElaVerif.Gen.C35.p2pPeer ++ ElaVerif.Gen.C35.elanetServer))
   | "dpos" => some (tableOf (ElaVerif.Gen.C35.dposPeer ++ ElaVerif.Gen.C35.dposNetwork))
   | "checkaddr" => some (tableOf ElaVerif.Gen.C35.checkAddr)
+  | "spv" => some (tableOf ElaVerif.Gen.C35.writeOnly)
   | _ => none
 
 def H : Bytes → Bytes := ElaVerif.Sha256.sha256d
@@ -69,6 +70,26 @@ def decodeAny (st flag : String) : Bytes → Bytes → Option Bytes :=
     match codec st c p with
     | some r => r.map fun _ => p
     | none => decodeFlag st flag c p
+
+def rtStep (st magic cmd payload : String) : String :=
+    -- a real message of command `cmd` whose serialization is `payload`, written then read back
+    match stack? st, nat? magic, hexBytes? payload with
+    | some t, some m, some p =>
+      match writeMessage H m (strBytes cmd) ((lookup t (strBytes cmd)).getD 0) p with
+      | .ok f =>
+        match ElaVerif.P2PCodec.layoutOfStr st cmd with
+        | some l =>
+          -- decode to a value and print its re-encoding: must equal the real message's re-serialization
+          match (readMessage H t (fun _ q => ElaVerif.P2PCodec.decodeMsg l q) m f).res with
+          | .ok (c, v) => s!"ok {cmdStr c} {toHex (ElaVerif.P2PCodec.encodeMsg l v)}"
+          | .error e => s!"err {errStr e}"
+        | none =>
+          match (readMessage H t (fun _ q => some q) m f).res with
+          | .ok (c, q) => s!"ok {cmdStr c} {toHex q}"
+          | .error e => s!"err {errStr e}"
+      | .error .sizeExceeded => "werr size"
+      | .error .panic => "panic"
+    | _, _, _ => "bad-op"
 
 def step : List String → String
   | ["read", st, magic, dflag, stream] =>
@@ -128,25 +149,8 @@ def step : List String → String
         | none => "err"
       | none => "bad-op"
     | _, _ => "bad-op"
-  | ["rt", st, magic, cmd, payload] =>
-    -- a real message of command `cmd` whose serialization is `payload`, written then read back
-    match stack? st, nat? magic, hexBytes? payload with
-    | some t, some m, some p =>
-      match writeMessage H m (strBytes cmd) ((lookup t (strBytes cmd)).getD 0) p with
-      | .ok f =>
-        match ElaVerif.P2PCodec.layoutOfStr st cmd with
-        | some l =>
-          -- decode to a value and print its re-encoding: must equal the real message's re-serialization
-          match (readMessage H t (fun _ q => ElaVerif.P2PCodec.decodeMsg l q) m f).res with
-          | .ok (c, v) => s!"ok {cmdStr c} {toHex (ElaVerif.P2PCodec.encodeMsg l v)}"
-          | .error e => s!"err {errStr e}"
-        | none =>
-          match (readMessage H t (fun _ q => some q) m f).res with
-          | .ok (c, q) => s!"ok {cmdStr c} {toHex q}"
-          | .error e => s!"err {errStr e}"
-      | .error .sizeExceeded => "werr size"
-      | .error .panic => "panic"
-    | _, _, _ => "bad-op"
+  | ["rt", st, magic, cmd, payload] => rtStep st magic cmd payload
+  | ["mrt", st, magic, _seed, _n, _mode, payload] => rtStep st magic "merkleblock" payload
   | _ => "bad-op"
 
 end C35Drv
